@@ -122,3 +122,9 @@ Lemma char_at_outside_at_compile_time :
   ref_tests 80 spstr_char_at_outside = Some [(4%N, Fault FStrDomain [])] /\
   exists rs sk stk, run_interp 80 spstr_char_at_outside [] = TDone rs sk stk /\ all_passed rs = false.
 Proof. split; [vm_compute; reflexivity|]. split; [vm_compute; reflexivity|]. eexists _, _, _. split; vm_compute; reflexivity. Qed.
+
+(* ... and what the gate does with it: the test is reported FAILED, exit status 1, no executable *)
+Lemma gate_refuses_substring_past_end :
+  refutes spstr_past_end 80 /\
+  nanoc {| front_ok := true; later_ok := true |} 80 spstr_past_end [] = NExit 1 false [RTesting 4%N [] false; RFailed 4%N 1; RShadowTestsFailed] [2%N].
+Proof. split; [exact refuted_substring_past_end | vm_compute; reflexivity]. Qed.
